@@ -505,8 +505,12 @@ mismatch between values and axes""".format(inferred, self.values.shape)
     def dtype(self): 
         return self.values.dtype
 
+    # numpy arrays and numpy scalars on the left-hand side of an operator (np.float64(2) - a, a.mean() - a)
+    # defer to the reflected operators of the DimArray instead of returning a bare numpy array
+    __array_priority__ = 100
+
     @property
-    def __array__(self): 
+    def __array__(self):
         """ so that np.array() works as expected (returns values)
         """
         return self.values.__array__
